@@ -113,14 +113,17 @@ LawMerge(b, c) ==
 Cwd == <<"$", "/", "W">>
 IsAbs(s) == s # <<>> /\ Head(s) = "$"
 RECURSIVE JoinComps(_)
-JoinComps(cs) == IF Len(cs) = 1 THEN cs[1] ELSE cs[1] \o <<"/">> \o JoinComps(Tail(cs))
+JoinComps(cs) == IF cs = <<>> THEN <<"/">>
+                 ELSE IF Len(cs) = 1 THEN cs[1] ELSE cs[1] \o <<"/">> \o JoinComps(Tail(cs))
 RECURSIVE NormAcc(_, _)
 NormAcc(cs, acc) ==
     IF cs = <<>> THEN acc
     ELSE LET c == Head(cs) IN
          IF c = <<>> \/ c = <<".">> THEN NormAcc(Tail(cs), acc)
          ELSE IF c = <<".", ".">>
-              THEN NormAcc(Tail(cs), IF Len(acc) > 1 THEN SubSeq(acc, 1, Len(acc) - 1) ELSE acc)
+              \* ".." may climb out of the scratch root: the result then no longer starts with "$"
+              \* and names nothing in the file system (nothing of ours exists out there)
+              THEN NormAcc(Tail(cs), IF acc # <<>> THEN SubSeq(acc, 1, Len(acc) - 1) ELSE acc)
          ELSE NormAcc(Tail(cs), Append(acc, c))
 \* os.path.abspath of an absolute name (below the scratch root)
 NormPath(s) == JoinComps(NormAcc(Split(s, "/"), <<>>))
